@@ -83,4 +83,34 @@ theorem scanRun_spec (size : Nat) (step : Nat → Option Nat) (hp : ∀ c c', st
     · refine ⟨by simp, ?_⟩
       intro c' n' h; injection h with e1 e2; omega
 
+theorem funnel_broad (handlers raises : List String) (hb : handlers.contains "Exception" = true)
+    (hr : raises = ["TokenError"]) (e : Exc) : funnel handlers raises e = .tokenError := by
+  have hc : catches handlers e = true := by simp only [catches, hb, Bool.true_or]
+  simp only [funnel, hc, hr, if_true]
+
+theorem tokenizeModel_spec (handlers raises : List String) (hb : handlers.contains "Exception" = true)
+    (hr : raises = ["TokenError"]) (size : Nat) (step : Nat → Except Exc Nat)
+    (hp : ∀ c c', step c = .ok c' → c < c') :
+    ∀ (fuel c : Nat), size - c ≤ fuel →
+      tokenizeModel handlers raises size step fuel c = .ok ∨ tokenizeModel handlers raises size step fuel c = .tokenError := by
+  intro fuel
+  induction fuel with
+  | zero =>
+    intro c hf
+    have : ¬ c < size := by omega
+    simp [tokenizeModel, this]
+  | succ fuel ih =>
+    intro c hf
+    unfold tokenizeModel
+    split
+    · cases hs : step c with
+      | ok c1 =>
+        simp only
+        have := hp c c1 hs
+        exact ih c1 (by omega)
+      | error e =>
+        simp only
+        exact Or.inr (funnel_broad handlers raises hb hr e)
+    · exact Or.inl rfl
+
 end SqlglotModel.ScanProgress
